@@ -70,9 +70,7 @@ def run_algebra(chk, n):
                                          rule="random expression trees (+, -, unary -, * scalar, scalar *, * (value, error)) over ESFResults with "
                                               "overlapping order keys, evaluated by the real class and by the model; compared: keys in dict order, values, errors")
     chk.samples += descs[:1]
-    chk.corr["alphas_dispatch"]["disagreements"] = len(bad) + len(wrong_card)
-    chk.corr["alphas_dispatch"]["rule"] += "; the Couplings object must be built from the card handed over (reference alpha_s, order, masses, ratios), not from the card stored in the output"
-    return [descs[i] for i in bad] + wrong_card
+    return [descs[i] for i in bad]
 
 
 def xs_params(rng):
@@ -131,8 +129,11 @@ def run_xs_result(chk, n):
         params, plit = xs_params(chk.rng)
         # few distinct kinematics on purpose: the same (kind, x, Q2, y) recurs with other beams / masses / couplings
         y = chk.rng.choice([0.5, 0.25, 1.0]); x = 0.25; Q2 = chk.rng.choice([4.0, 10.0])
-        flavor = chk.rng.choice(["total", "light", "charm"])
-        configs = types.SimpleNamespace(coupling_constants=types.SimpleNamespace(obs_config={"projectilePID": params["projectilePID"]}),
+        flavor = chk.rng.choice(["total", "light", "charm", "bottom"])
+        # the observable configuration as CouplingConstants.from_dict builds it (all of its keys, not only the one read today)
+        proc = chk.rng.choice(["EM", "NC", "CC"])
+        configs = types.SimpleNamespace(coupling_constants=types.SimpleNamespace(obs_config={"projectilePID": params["projectilePID"], "process": proc, "polarization": 0.0,
+                                                                                             "propagatorCorrection": 0.0, "nc_pos_charge": None}),
                                         M2target=params["M2target"], M2W=params["M2W"], GF=params["GF"])
         sfs = {}
         names = ("g4", "gL", "g1") if kind == "g5" else ("F2", "FL", "F3")
@@ -155,11 +156,11 @@ def run_xs_result(chk, n):
                 % (qc(float(c[0])), res_lit(sfs[names[0] + "_" + flavor]), qc(float(c[1])), res_lit(sfs[names[1] + "_" + flavor]),
                    qc(float(c[2])), res_lit(sfs[names[2] + "_" + flavor]) if third else "[]"))
         cases.append("(%s, %s)" % (term, res_lit(res)))
-        descs.append(dict(kind=kind, flavor=flavor, asked=list(asked), ok_asked=ok_asked, y_attr=getattr(res, "y", None) == y))
+        descs.append(dict(kind=kind, flavor=flavor, process=proc, asked=list(asked), ok_asked=ok_asked, y_attr=getattr(res, "y", None) == y))
     bad = set(common.eval_cases("xsresult", HEADER, cases, "rcase_ok (qc 1 100000000000)", per_file=150))
     bad |= {i for i, d in enumerate(descs) if not d["ok_asked"] or not d["y_attr"]}
-    chk.corr["xs_get_result"] = dict(cases=len(cases), disagreements=len(bad), distinct_nontrivial=len({(d["kind"], d["flavor"]) for d in descs}),
-                                     rule="real EvaluatedCrossSection.get_result with stubbed structure functions (random ESFResults): the result "
+    chk.corr["xs_get_result"] = dict(cases=len(cases), disagreements=len(bad), distinct_nontrivial=len({(d["kind"], d["flavor"], d["process"]) for d in descs}),
+                                     rule="real EvaluatedCrossSection.get_result with stubbed structure functions (random ESFResults; every flavour incl. heavy ones, every process): the result "
                                           "must be c1*sf1 + c2*sf2 + c3*sf3 of the SAME flavour and kinematics, keys unshifted, third SF requested iff c3 != 0")
     chk.samples += descs[:1]
     return [descs[i] for i in sorted(bad)]
@@ -267,7 +268,7 @@ def run_alphas_dispatch(chk, n):
                 want = dict(alphas=float(th["alphas"]), order=(th["PTO"] + 1, th.get("QED", 0)), masses=[mc ** 2, mb ** 2, mt ** 2], ratios=[kc ** 2, kb ** 2, kt ** 2])
                 diff = {k: (got[k], want[k]) for k in want if (list(got[k]) if isinstance(got[k], (list, tuple)) else got[k]) != (list(want[k]) if isinstance(want[k], (list, tuple)) else want[k])}
                 if diff:
-                    wrong_card.append(dict(fns=fns, NfFF=nfff, walls=walls, xiR=xiR, Q2s=q2s, calls=[], rejected=rejected,
+                    wrong_card.append(dict(index=len(cases), fns=fns, NfFF=nfff, walls=walls, xiR=xiR, Q2s=q2s, calls=[], rejected=rejected,
                                            couplings_built_from=diff, note="(got, expected from the card handed to apply_pdf_theory)"))
             exp = [float((np.sqrt(q) * xiR) ** 2) for q in q2s]
             if rejected:
@@ -300,6 +301,6 @@ def run_alphas_dispatch(chk, n):
                                             "nf_to = NfFF (names containing FFNS/FFN0) or 3 + #{(m_q k_q)^2 <= scale^2} (ZM-VFNS), points exactly at and one ulp "
                                             "below a matching scale included; unknown scheme names must be rejected")
     chk.samples += descs[:1]
-    chk.corr["alphas_dispatch"]["disagreements"] = len(bad) + len(wrong_card)
+    chk.corr["alphas_dispatch"]["disagreements"] = len(set(bad) | {w["index"] for w in wrong_card})
     chk.corr["alphas_dispatch"]["rule"] += "; the Couplings object must be built from the card handed over (reference alpha_s, order, masses, ratios), not from the card stored in the output"
     return [descs[i] for i in bad] + wrong_card
